@@ -136,6 +136,10 @@ def check_case(R, res, model_answers, mismatches, label):
             R.violation('interp-disagree:' + ('static-inst:' if has_inst(res) else 'dynamic:') + fail,
                         'interpreter stacks disagree on one proof expression', replay)
     # ---- tie: model vs implementation, stack by stack
+    if res.get('d3'):
+        # the toolkit's notation-level evar_is_free (D3, owned by C06/C12) differs from the expanded judgement on a
+        # Generalization node of this term: the expanded model is not comparable; the pairwise oracle above still ran
+        return kind + '+d3-tie-skipped'
     exact = not res['notation']
     for n, b, ls in STACKS:
         m = parse_model(model_answers[n])
@@ -239,7 +243,7 @@ def corpus_cases():
 
 def run(tier, seed):
     R = C.Report(CID, tier, seed)
-    n = 480 if tier == 'quick' else 24000
+    n = 480 if tier == 'quick' else 12000
 
     P = R.proof_stage()
     proof_broken = not P['ok']
